@@ -186,6 +186,9 @@ def run(ck):
                 nreq = 0
                 cur_open = open_cnt
                 open_before = open_cnt
+                # the harness prints what was written at the END of a command (possibly several ticks): a connection counts as
+                # started for this block when it was started at its beginning or became started inside it
+                acts = set(active) | {int(x.split()[1][1:]) for x in blk if x.split()[0] == "ev" and x.split()[2] == "ACTIVATED"}
                 for x in blk:
                     p = x.split()
                     if p[0] == "open":
@@ -221,7 +224,7 @@ def run(ck):
                             a = apci.parse_apdu(f)
                             if a["kind"] == "I" and a["asdu"][0] == 30:
                                 tx_ev.setdefault(ci, []).append(a["asdu"][6] | a["asdu"][7] << 8)
-                                if ci not in active:
+                                if ci not in acts:
                                     bad.append(("event-to-inactive", "event ASDU transmitted on c%d which is not the started connection of its group" % ci))
                 if backlog and nreq == 0 and not (maxconn >= 1 and (open_cnt >= maxconn or cur_open >= maxconn or open_before >= maxconn)):
                     starve += 1
